@@ -239,6 +239,20 @@ func c14Append(mbox string, i int) string {
 	return fmt.Sprintf("APPEND %s (\\Seen) {%d+}\r\n%s", mbox, len(m), m)
 }
 
+// c14Keyword is a fresh mixed-case client keyword: per session and per iteration a spelling nobody
+// has used before (backends that intern or cache flag spellings are only exercised by new ones).
+func c14Keyword(sess, i int) string {
+	if i%4 == 3 {
+		return fmt.Sprintf("$Label%dx%d", sess, i)
+	}
+	return fmt.Sprintf("Project-S%d-N%d", sess, i)
+}
+
+func c14AppendKw(mbox string, i int, kw string) string {
+	m := c14Msg(i)
+	return fmt.Sprintf("APPEND %s (\\Seen %s) {%d+}\r\n%s", mbox, kw, len(m), m)
+}
+
 // c14Dump returns the stacks of the goroutines that are inside the server packages.
 func c14Dump() string {
 	buf := make([]byte, 1<<20)
@@ -298,7 +312,7 @@ func (s *c14Sess) next() string {
 		case 3, 4:
 			return "STATUS " + s.mb() + " (MESSAGES UIDNEXT UNSEEN)"
 		case 5, 6, 7:
-			return c14Append(s.mb(), s.k)
+			return c14AppendKw(s.mb(), s.k, c14Keyword(s.id, s.k))
 		case 8:
 			return "CREATE " + scratch
 		case 9:
@@ -347,15 +361,25 @@ func (s *c14Sess) next() string {
 		return "FETCH 1:2 (BODY[])"
 	case 6:
 		return "UID FETCH 1:* (FLAGS BODY.PEEK[HEADER])"
-	case 7, 8, 9:
+	case 7, 8:
 		return `STORE 1:2 +FLAGS (\Deleted)`
+	case 9:
+		return "STORE 1:2 +FLAGS (" + c14Keyword(s.id, s.k) + ")"
 	case 10:
 		return `STORE 1 -FLAGS.SILENT (\Deleted)`
 	case 11:
+		if r.chance(1, 2) {
+			return "UID STORE 1:* +FLAGS.SILENT (" + c14Keyword(s.id, s.k) + ")"
+		}
 		return `UID STORE 1:* +FLAGS (\Flagged)`
-	case 12, 13:
+	case 12:
 		return "SEARCH UNDELETED"
+	case 13:
+		return "SEARCH KEYWORD " + c14Keyword(s.id, s.k)
 	case 14:
+		if r.chance(1, 2) {
+			return "UID SEARCH UNKEYWORD " + c14Keyword(s.id, s.k)
+		}
 		return "UID SEARCH ALL"
 	case 15, 16:
 		return "EXPUNGE"
@@ -408,6 +432,13 @@ func c14History(mode string, seed uint64, sess, nsess, nmbox, n int) []string {
 		}
 		h = append(h, fmt.Sprintf("SELECT M%d", src))
 		for i := 0; i < n; i++ {
+			// fresh keywords travel with the copied/moved messages and are looked up by other sessions
+			switch i % 5 {
+			case 1:
+				h = append(h, "STORE 1 +FLAGS.SILENT ("+c14Keyword(sess, i)+")")
+			case 3:
+				h = append(h, "SEARCH KEYWORD "+c14Keyword(sess, i))
+			}
 			switch verb {
 			case "copy":
 				h = append(h, fmt.Sprintf("COPY 1 M%d", dst))
@@ -420,11 +451,11 @@ func c14History(mode string, seed uint64, sess, nsess, nmbox, n int) []string {
 			case "move":
 				h = append(h, fmt.Sprintf("MOVE 1 M%d", dst))
 				if i%2 == 1 {
-					h = append(h, c14Append(fmt.Sprintf("M%d", src), i))
+					h = append(h, c14AppendKw(fmt.Sprintf("M%d", src), i, c14Keyword(sess, i)))
 				}
 			case "uidmove":
 				h = append(h, fmt.Sprintf("UID MOVE 1:9 M%d", dst))
-				h = append(h, c14Append(fmt.Sprintf("M%d", src), i))
+				h = append(h, c14AppendKw(fmt.Sprintf("M%d", src), i, c14Keyword(sess, i)))
 			case "fetch":
 				h = append(h, "FETCH 1:* (FLAGS BODY[])", fmt.Sprintf("COPY 1 M%d", dst), "EXPUNGE")
 			default:
@@ -584,12 +615,8 @@ func c14Plans(tier string, seed uint64) []c14Plan {
 }
 
 func (p c14Plan) run(e *emitter, wd time.Duration) string {
-	res := c14Run(p.mode, p.seed, p.nsess, p.nmbox, p.ncmd, wd)
-	if c14RaceBuild && res.outcome != "stuck" {
-		if rep := c14RaceReports(); rep != "" {
-			res.outcome, res.detail = "race", hx([]byte(rep))
-		}
-	}
+	// in a child process: a racing server usually dies with an unrecoverable runtime error
+	res := c14RunIsolated(p.mode, p.seed, p.nsess, p.nmbox, p.ncmd, wd)
 	e.emit("run", p.mode, strconv.FormatUint(p.seed, 10), strconv.Itoa(p.nsess), strconv.Itoa(p.nmbox),
 		strconv.Itoa(p.ncmd), c14Counts(res.counts), res.outcome, res.detail)
 	e.count("run:" + p.mode)
@@ -604,7 +631,7 @@ func (p c14Plan) run(e *emitter, wd time.Duration) string {
 	return res.outcome
 }
 
-const c14Watchdog = 10 * time.Second
+const c14Watchdog = 30 * time.Second
 
 func genC14(e *emitter, tier string, seed uint64) {
 	if tier == "sweep" {
@@ -675,7 +702,7 @@ func replayC14(e *emitter, kind string, f []string) {
 		mode := strings.TrimPrefix(f[0], "race-")
 		var res c14Result
 		for try := 0; try < 5; try++ {
-			res = c14Run(mode, seed, ns, nm, nc, c14Watchdog/2)
+			res = c14RunIsolated(mode, seed, ns, nm, nc, c14Watchdog/2)
 			if res.outcome != "ok" && res.outcome != "slow" {
 				break
 			}
